@@ -7,6 +7,7 @@ import (
 	"os"
 	"path/filepath"
 	"runtime"
+	"runtime/pprof"
 	"runtime/debug"
 	"strconv"
 	"strings"
@@ -331,6 +332,15 @@ func WorkerMain(t *testing.T, opt Options, fn EngineFunc) {
 		c := NewPRNGChooser(runSeed, 0)
 		o := execOne(t, name, c, runSeed, prop, tier, known, fn)
 		lastProgress.Store(time.Now().UnixNano())
+		if os.Getenv("VERIF_MEMSTATS") != "" && i%20 == 0 {
+			var ms runtime.MemStats
+			runtime.ReadMemStats(&ms)
+			fmt.Fprintf(os.Stderr, "MEMSTATS run=%d t=%ds sys=%dM heapInuse=%dM heapIdle=%dM heapReleased=%dM stack=%dM goroutines=%d numGC=%d\n", i, int(time.Since(start).Seconds()),
+				ms.Sys>>20, ms.HeapInuse>>20, ms.HeapIdle>>20, ms.HeapReleased>>20, ms.StackInuse>>20, runtime.NumGoroutine(), ms.NumGC)
+			if i == 40 {
+				pprof.Lookup("goroutine").WriteTo(os.Stderr, 1)
+			}
+		}
 		if i == 0 {
 			res.FirstRun = runSeed
 		}
